@@ -33,3 +33,23 @@ Theorem C12_dopri5_observer_independence :
       end.
 Proof. exact @loop_passive. Qed.
 Print Assumptions C12_dopri5_observer_independence.
+
+(* ---------------- DOP853: the same independence, including the three extra dense stages (which are
+   computed or not according to the solver's own dense flag, never according to the observer) ---------------- *)
+Require IVP.model.Dop853 IVP.proofs.Dop853Protocol.
+
+Theorem C12_dop853_observer_independence :
+  forall (F : Type) (O : Ops F) (H1 H2 : Type) (P : Dop853.params) f xend posneg hmax
+         (cb1 : H1 -> F -> F -> list F -> option (list F * F * F) -> H1 * flag F * list F)
+         (cb2 : H2 -> F -> F -> list F -> option (list F * F * F) -> H2 * flag F * list F) kern,
+    (forall h xold x y sg, exists h', cb1 h xold x y sg = (h', Continue, y)) ->
+    (forall h xold x y sg, exists h', cb2 h xold x y sg = (h', Continue, y)) ->
+    forall fuel (s1 : Dop853.state H1) (s2 : Dop853.state H2),
+      Dop853Protocol.core s1 = Dop853Protocol.core s2 ->
+      match Dop853.loop O P f xend posneg hmax cb1 kern fuel s1, Dop853.loop O P f xend posneg hmax cb2 kern fuel s2 with
+      | Some a, Some b => Dop853Protocol.rcore a = Dop853Protocol.rcore b
+      | None, None => True
+      | _, _ => False
+      end.
+Proof. exact @Dop853Protocol.loop_passive. Qed.
+Print Assumptions C12_dop853_observer_independence.
